@@ -1023,9 +1023,10 @@ def run(ctx):
                                                                         "exact_values_far": [str(x) for x in far], "n": NF},
                               f"{gname} after the loop diverges (dominant growing term in the validated numerator; exact conditional values "
                               f"at n = {N}, {(N + NF) // 2}, {NF}: {', '.join(str(x) for x in far)}) but {how} is {pv}\n{text}")
-        elif pv in ("!nan", "!zoo"):
-            # neither a number nor an infinity is ever the answer: every term of the conditional sequence is a finite number, so
-            # its limit is a number, +oo, -oo, or does not exist
+        elif pv in ("!nan", "!zoo") and all(x is not None for x in far):
+            # neither a number nor an infinity is the answer when the loop stops with positive probability: every term of the
+            # conditional sequence is then a finite number (far values exist), so its limit is a number, +oo, -oo, or does not
+            # exist.  (A loop that never stops has an undefined conditional expectation: nan is right there.)
             ctx.violation(f"after-loop-nan:{text}:{gname}", {"program_text": text, "goal": gname, "printed": shown, "value": pv,
                                                               "exact_values_far": [str(x) for x in far], "n": NF},
                           f"{gname} after the loop: {how} is {pv[1:]}; the exact conditional values at n = {N}, {(N + NF) // 2}, {NF} are "
